@@ -44,7 +44,7 @@ CLAIMS = {
     'C09': dict(
         text='Bounded symbolic execution of the real Client/AsyncClient event dispatch, ACK construction, '
              '_generate_ack_id, _handle_ack and call(): every single incoming event shape in the stated palette with '
-             'symbolic ids/arguments/returns, and all histories of 4 (thorough 5) emit/ACK operations on 2 namespaces '
+             'symbolic ids/arguments/returns, and all histories of 3 (thorough 5) emit/ACK operations on 2 namespaces '
              'against a reference table. Exhaustive within those bounds.',
         ref='5 C09', technique='symbolic execution (CrossHair+z3) of real client code over bounded histories'),
     'C11': dict(
@@ -159,8 +159,8 @@ CLAIMS = {
         ref='5 C07', technique='solver-driven enumeration (CrossHair+z3) of cluster histories; differential vs a real single server'),
     'C14': dict(
         text='Differential check of every threaded class against its asyncio twin on solver-enumerated scripts: all '
-             'triples of 25 server operations (valid and malformed client packets, API calls, raising callbacks, '
-             'duplicate ACKs, transport loss, class-based namespaces), all triples of 20 client operations, all pairs of 9 '
+             'triples of 26 server operations (valid and malformed client packets, API calls, raising callbacks, '
+             'duplicate ACKs, transport loss, class-based namespaces), all triples of 22 client operations, all pairs of 9 '
              'pub/sub message kinds x 4 encodings x 4 variants through both listeners, all triples of 8 simple-client '
              'operations; packets per peer in order, handler/callback invocations, API results or exception types, '
              'contained exceptions, published messages and final state must be identical.',
